@@ -1016,7 +1016,7 @@ func TestVerifC18(t *testing.T) {
 			r := &verifRng{s: seed*1000003 + uint64(l)*7919 + uint64(len(alg))}
 			nr := 20
 			if thorough {
-				nr = 500
+				nr = 1200
 			}
 			for i := 0; i < nr; i++ {
 				add(c18Random(r, alg, l))
